@@ -46,7 +46,9 @@ def install(it, file_rows=None, may_fail=True):
             if meth != 'detach':
                 ext_fail(meth)
             return None
-        raise Unsupported('external call %s' % name)
+        # any other external call (codecs.getwriter, locale..., a different wrapper): an event, judged by the protocol obligations
+        it.trace.append(('other:' + name,) + tuple(args))
+        return Opaque('external-result', name)
     it.opaque_hook = hook
 
 
